@@ -484,8 +484,6 @@ theorem headerSize_param {c : Container} (hm : c.isMsg = false) :
 
 /-! ## `paramHeader.sz` is the real length on `fits` values (also C02's `implSize_exact`) -/
 
-theorem wrap16_of_lt {n : Nat} (h : n < 65536) : wrap16 n = n := Nat.mod_eq_of_lt h
-
 theorem take_one_of_le {α} (l : List α) (h : l.length ≤ 1) : l.take 1 = l := by
   match l, h with
   | [], _ => rfl
@@ -514,7 +512,7 @@ theorem sz_eq_length (S : Schema) (hS : SchemaWF S = true) : ∀ f : Nat,
         obtain ⟨⟨hff, hfs⟩, hlt⟩ := h
         have hw := wfc_of_param hS hp
         have hm := (param_mem hp).2
-        rw [wrap16_of_lt hlt, ihS _ _ _ none hfs, ← encFields_length c.fields fs hw.fields hff,
+        rw [wrap16_of_lt _ hlt, ihS _ _ _ none hfs, ← encFields_length c.fields fs hw.fields hff,
           headerSize_param hm]
         by_cases ht : c.isTLV = true
         · simp [ht, put16]; omega
@@ -586,7 +584,7 @@ theorem encP_shape (S : Schema) (hS : SchemaWF S = true) {n : Nat} {ty : String}
     simp only [fitsParam, hp, Bool.and_eq_true, decide_eq_true_eq] at hfit
     obtain ⟨⟨hff, hfs⟩, hlt⟩ := hfit
     simp only [szParam, hp] at hsz
-    rw [wrap16_of_lt hlt] at hsz
+    rw [wrap16_of_lt _ hlt] at hsz
     simp only [encParam, hp] at henc hsz
     have hm := (param_mem hp).2
     refine ⟨fs, subs, f, hf0, rfl, hff, hfs, ?_, ?_⟩
@@ -594,10 +592,10 @@ theorem encP_shape (S : Schema) (hS : SchemaWF S = true) {n : Nat} {ty : String}
       rw [if_pos ht] at henc hsz
       rw [headerSize_param hm, if_pos ht] at hsz hlt
       have hlen : e.length = wrap16 (4 + fieldsSz p.fields fs + szSlots S f p.slots subs none) := by
-        rw [wrap16_of_lt hlt, hsz, henc]
+        rw [wrap16_of_lt _ hlt, hsz, henc]
       refine ⟨?_, ?_⟩
       · rw [hlen]; exact henc.symm
-      · rw [hlen, wrap16_of_lt hlt]; exact hlt
+      · rw [hlen, wrap16_of_lt _ hlt]; exact hlt
     · intro ht
       rw [if_neg (by simp [ht])] at henc
       rw [← henc, or_128 (isTLV_false ht)]
